@@ -44,7 +44,7 @@ def run(rep):
         wdir = runner.work_dir("replay")
         case = rep.get("case") or 0
         odir = os.path.join(wdir, "stderr")
-        res = mpirun.launch(cmdp, rep["driver"], rep["np"], rep["seed"], "quick", case, case + 1, wdir, "replay", rep.get("env") or {}, 1500, mpiexec_args=["--output-filename", odir])
+        res = mpirun.launch(cmdp, rep["driver"], rep["np"], rep["seed"], "quick", case, case + 1, wdir, "replay", rep.get("env") or {}, 1500, mpiexec_args=["--output-filename", odir] + (["--mca", "btl", "tcp,self", "--mca", "btl_tcp_if_include", "lo"] if tool != "asan" else []))
         hit = False
         for path in sorted(glob.glob(os.path.join(odir, "*", "rank.*", "stderr"))):
             for r in sanitizer_logs.parse_text(open(path, "r", errors="replace").read()):
